@@ -231,7 +231,11 @@ pub fn c12(a: &Args) -> Report {
     for (s, (o1, o2, sg)) in base.iter().zip(outs.iter()) {
         let sb = s.clone().bytes_mode();
         common::fold(&mut rep, &a.prop, s, o1, EQUIV_TAGS);
+        let n0 = rep.violations.len();
         common::fold(&mut rep, &a.prop, &sb, o2, EQUIV_TAGS);
+        for v in rep.violations.iter_mut().skip(n0) {
+            v.replay["utf8_paths_only"] = json!(true);
+        }
         if *sg {
             same += 1;
         }
@@ -273,7 +277,13 @@ pub fn replay(a: &Args) -> Report {
             let spec: Spec = serde_json::from_value(r["spec"].clone()).expect("spec");
             let specs = vec![spec.clone()];
             let mut tmp = Report::new(&a.prop, "vgraph replay", &a.tier_name);
-            run_specs(&mut tmp, &a.prop, &specs, EQUIV_TAGS, true);
+            if r["utf8_paths_only"].as_bool() == Some(true) {
+                let (_, o) = common::observe(&spec, false);
+                let out = common::process_observed_opt(&spec, &o, true);
+                common::fold(&mut tmp, &a.prop, &spec, &out, EQUIV_TAGS);
+            } else {
+                run_specs(&mut tmp, &a.prop, &specs, EQUIV_TAGS, true);
+            }
             if tag == "ICASE-CHANGES-OTHER" || tag == "MODE-ACCEPTANCE" {
                 // pairwise comparisons: re-run the owning family restricted to this definition
                 let sub = if tag == "MODE-ACCEPTANCE" { c12_single(a, &spec) } else { c10_single(a, &spec) };
